@@ -1,6 +1,6 @@
 (* Proofs about the XML value encoders / the value parser (C08). *)
 From Coq Require Import String Ascii List Bool NArith ZArith Lia.
-Require Import PyStr PyInt Sexp Xml M_C09 M_C08.
+Require Import PyStr PyInt Sexp Xml M_C09 M_C08 M_C08d.
 Import ListNotations.
 Open Scope char_scope.
 
@@ -29,10 +29,8 @@ Proof.
 Qed.
 
 (* ---------- leaves: <Name [xmlns]>text</Name> ---------- *)
-Definition xa (b : bool) : list attr := if b then [(lit "xmlns", TYPES_NS)] else [].
 Definition leaf_tree (b : bool) (name text : str) : xtree := Elem str (list attr) str name (xa b) text [] [].
 Definition leaf_node (name text : str) : nxml := NElem TYPES_NS name [] (match text with [] => None | _ => Some text end) [].
-Definition noq : str -> bool := starts_with (lit "ListOf").
 
 Lemma spell_attrs_xa b : spell_attrs (xa b) = if b then " " :: XMLNS_ATTR else [].
 Proof. destruct b; reflexivity. Qed.
@@ -67,7 +65,6 @@ Proof.
 Qed.
 
 (* ---------- the canonical form the round trip yields ---------- *)
-Definition canon_text (s : option str) : option str := match s with Some s => norm_empty (Some (strip s)) | None => None end.
 
 Lemma name_facts_String : name_ok (lit "String") = true /\ noq (lit "String") = false /\ has ":" (lit "String") = false /\ has CR (lit "String") = false.
 Proof. repeat split; reflexivity. Qed.
@@ -107,7 +104,6 @@ Proof.
 Qed.
 
 (* Boolean *)
-Definition bool_text (b : option bool) : str := match b with Some true => lit "true" | Some false => lit "false" | None => [] end.
 Theorem roundtrip_bool E b v : decode_text E (negb b) (encode b (VBool v)) = Ok (VBool v).
 Proof.
   destruct name_facts_Boolean as [H1 [H2 [H3 H4]]]. cbn [encode].
@@ -157,8 +153,6 @@ Theorem enum_written_as_int32 b z s n : encode b (VEnum z s n) = encode b (VInt 
 Proof. reflexivity. Qed.
 
 (* ---------- floats: CPython's float()/repr() are external; the theorem holds for any table E that parses a repr to itself ---------- *)
-Definition is_plain (c : ascii) : bool := is_alnum c || Ascii.eqb c "." || Ascii.eqb c "+" || Ascii.eqb c "-".
-Definition plain (s : str) : bool := all_chars is_plain s && match s with [] => false | _ => true end.
 Lemma is_plain_facts c : is_plain c = true ->
   Ascii.eqb c "&" = false /\ Ascii.eqb c "<" = false /\ Ascii.eqb c ">" = false /\ Ascii.eqb c CR = false /\ is_space c = false.
 Proof. destruct c as [[] [] [] [] [] [] [] []]; cbn; intros H; try discriminate; repeat split; reflexivity. Qed.
